@@ -10,6 +10,9 @@ DT_RL = gen.DT_ALL + ["float16"]
 
 def gen_runs(rng, dtype, vclass="small", maxlen=20, style=None, length=None):
     """1-D array with a named run pattern"""
+    if length is None and gen.FORCED is not None and not gen.FORCED["used"]:
+        s_, form_ = gen.forced_size()
+        return forced_runs(rng, dtype, vclass, s_, form_), "codeconst"
     style = style or rng.choice(STYLES)
     L = length or (rng.randint(1, maxlen) if rng.random() < 0.95 else rng.choice([63, 64, 65, 128, 256]))      # also sizes exactly on / next to a power of two
     if style == "single":
@@ -32,6 +35,34 @@ def gen_runs(rng, dtype, vclass="small", maxlen=20, style=None, length=None):
             out += [one()] * rng.randint(1, 3 if style == "runs" else 9)
         out = out[:L]
     return np.array(out).astype(dtype), style
+
+
+def forced_runs(rng, dtype, vclass, s, form):
+    """1-D array in which the number `s` (a constant of the library source, +-1) is the number of runs ("rows", "nonempty"), the length of
+    the array ("cells", "rowlen") or the length of one run ("emptyrun"); generated with numpy for speed"""
+    base = dtype if dtype != "float16" else "float32"
+    pool = gen.values(rng, base, 12, vclass if vclass != "close" else "small")
+    if pool.dtype.kind == "f":
+        pool = pool[~np.isnan(pool)]
+    pool = np.unique(pool.astype(dtype))
+    if len(pool) < 2:
+        pool = np.unique(np.array([0, 1]).astype(dtype))
+    k = len(pool)
+    rs = np.random.RandomState(rng.randrange(2 ** 32))
+
+    def runs(nruns, maxrun):
+        steps = rs.randint(1, k, size=nruns) if k > 1 else np.zeros(nruns, dtype=int)       # neighbouring runs differ
+        idx = (rs.randint(0, k) + np.cumsum(steps)) % k
+        return np.repeat(pool[idx], rs.randint(1, maxrun + 1, size=nruns))
+    if form in ("rows", "nonempty"):
+        out = runs(s, 3 if form == "rows" else 1)
+    elif form in ("cells", "rowlen"):
+        out = runs(s, 9 if form == "cells" else 2)[:s]
+    else:
+        a, b = runs(rs.randint(0, 3), 3), runs(rs.randint(1, 3), 3)
+        mid = np.repeat(pool[rs.randint(0, k)], s)
+        out = np.concatenate([a, mid, b])
+    return out.astype(dtype)
 
 
 def canonical(rla, joined=False):
